@@ -9,6 +9,7 @@ publisher streams (the registration channel has been drained and holds the waker
 was polled), or idle (same, and nothing at all is outstanding).
 -/
 import SeliumModel.Lemmas.PubSubHealthy
+import SeliumModel.Lemmas.ReqRepMore
 
 namespace Selium.Route
 open Selium.Sink
@@ -49,8 +50,41 @@ example : (pollFuel 10 [] ({ queue := [.stream [.pending], .sink { id := 0 }] } 
 
 end Selium.Route
 
+
+/-! ## Request/reply half -/
+namespace Selium.Route
+open Selium.Sink
+
+/-- One step performs work bounded by the data currently available (`rwork s`: queued registrations, answers
+    held by the requestor streams and the replier stream, buffered frames, a pending rejection) and then yields —
+    with a replier and no requestor, requestors and no replier, both, or neither. -/
+theorem c09_reqrep_terminates (s : RR) : (rrPoll (rwork s + 1) s).1 ≠ .outOfFuel :=
+  rrPoll_terminates (rwork s + 1) s (Nat.lt_succ_self _)
+
+/-- Every iteration of the loop either returns from `poll` or strictly reduces the available work. -/
+theorem c09_reqrep_iteration_progress (s : RR) :
+    match iter s with
+    | .ret _ _ => True
+    | .next s' => rwork s' < rwork s
+    | .again s' => rwork s' < rwork s := iter_progress s
+
+/-- Whenever it yields not blocked on a particular sink (idle, or both sides reported Pending), no registration
+    is left in the channel and the channel holds the task's waker. -/
+theorem c09_reqrep_channel_drained (fuel : Nat) (s : RR)
+    (h : (rrPoll fuel s).1 = .idle ∨ (rrPoll fuel s).1 = .waiting) :
+    (rrPoll fuel s).2.queue = [] ∧ (rrPoll fuel s).2.handleReg = true := rrPoll_drained fuel s h
+
+/-! Non-vacuity: the two one-sided states in which the unrepaired loop never returned. -/
+example : (rrPoll 20 ({ queue := [.client { id := 0 } [.pending]] } : RR)).1 = .waiting := by decide +kernel
+example : (rrPoll 20 ({ queue := [.server { id := 0 } [.pending]] } : RR)).1 = .waiting := by decide +kernel
+
+end Selium.Route
+
 #print axioms Selium.Route.c09_pubsub_terminates
 #print axioms Selium.Route.c09_pubsub_terminates_any
 #print axioms Selium.Route.c09_pubsub_channel_drained
 #print axioms Selium.Route.c09_pubsub_no_unflushed_work
 #print axioms Selium.Route.c09_pubsub_calm_never_blocked
+#print axioms Selium.Route.c09_reqrep_terminates
+#print axioms Selium.Route.c09_reqrep_iteration_progress
+#print axioms Selium.Route.c09_reqrep_channel_drained
